@@ -1007,6 +1007,11 @@ BASE_MODELS = [
     (R(r"^(Option|Result)::<.*>::and_then::<.*>$"), m_and_then),
     (R(r"^Option::<.*>::filter::<.*>$"), m_opt_filter),
     (R(r"^<Box<.*> as Drop>::drop$"), lambda ex, st, c, a, d: iter([(st, UNIT)])),
+    (R(r"^char::methods::<impl char>::is_ascii$"), lambda ex, st, c, a, d: iter([(st, mk_bool(z3.simplify(deref(ex, st, a[0]).e < 128)))])),
+    (R(r"^char::methods::<impl char>::is_control$"), lambda ex, st, c, a, d: iter([(st, mk_bool(z3.simplify(
+        z3.Or(a[0].e < 32, z3.And(a[0].e >= 127, a[0].e <= 159)))))])),
+    (R(r"^char::methods::<impl char>::is_ascii_(digit|control)$"), lambda ex, st, c, a, d: iter([(st, mk_bool(z3.simplify(
+        (lambda x: z3.And(x >= 48, x <= 57) if c.endswith("digit") else z3.Or(x < 32, x == 127))(deref(ex, st, a[0]).e))))])),
     (R(r"^<(i|u)(\d+|size) as Ord>::(min|max)$|^(std|core)::cmp::(min|max)::<(i|u)(\d+|size)>$"), lambda ex, st, c, a, d: iter([(st, Sc(z3.simplify(
         z3.If(a[0].e <= a[1].e, a[0].e, a[1].e) if "min" in c.rsplit("::", 1)[-1] or "::min::" in c else z3.If(a[0].e >= a[1].e, a[0].e, a[1].e)), a[0].ty))])),
     (R(r"^<(i|u)(\d+|size) as TryFrom<(i|u)(\d+|size)>>::try_from$"), m_int_try_from),
